@@ -340,6 +340,26 @@ def c15_admit_gen(rng, tier):
             else:
                 steps.append("%s:%s" % (rng.choice(kinds), rng.choice(clients)))
         out.append("e%d rate=1 burst=%d v4=%d v6=%d global=0 steps=%s" % (i, burst, v4, v6, ",".join(steps)))
+    # round 6: listeners on abstract unix sockets (the transport peer has no IP address): a reverse proxy opens many
+    # connections on behalf of clients from many subnets (address in the header); tcp over the unix socket as well
+    for i in range(budget(tier, 14, 140)):
+        burst = rng.choice([5, 5, 6, 7, 9, 12])
+        subs = [a4((10 << 24) | (rng.randrange(1, 250) << 16) | (j << 8) | rng.randrange(1, 250)) for j in range(8)]
+        subs += [a6((0x20010DB8 << 96) | (rng.randrange(1 << 16) << 80) | 1), mapped(0x0A630001 + (rng.randrange(200) << 8))]
+        rng.shuffle(subs)
+        steps = []
+        nconn = rng.choice([3, 4, 5, 6])
+        for j in range(nconn):
+            steps.append("hc:none")
+            steps += ["hq:" + subs[(j + t) % len(subs)] for t in range(rng.choice([1, 1, 2]))]
+            if rng.random() < 0.35:
+                steps.append("tq:" + rng.choice(["none", "none2", "none3", "none4"]))
+            if rng.random() < 0.15:
+                steps.append("hx:%d" % rng.randrange(10))
+        if rng.random() < 0.5:
+            steps += ["hq:" + subs[0]] * rng.choice([1, 2])
+        out.append("x%d rate=1 burst=%d v4=%d v6=%d global=0 unix=1 steps=%s" % (
+            i, burst, rng.choice([0, 24]), rng.choice([0, 48]), ",".join(steps)))
     # round 2: configured masks end to end.  DoH clients (address from the header) placed relative to BOTH configured
     # masks (cfg_pool): a noisy client exhausts its subnet, then neighbours inside / outside its subnet ask
     for i in range(budget(tier, 60, 600)):
@@ -386,6 +406,14 @@ def c15_admit_oracle(line, res):
         kind, a = st.split(":")
         if o.endswith("+fwd"):
             return "step %s: outcome %s but the query reached the upstream (a query the limiter did not admit must not be forwarded)" % (st, o)
+        if a.startswith("none"):
+            # a peer without an IP address (listener on a unix socket): there is no subnet to charge; the clients behind
+            # the connection are limited per request by the address in the client_addr_header
+            if kind in ("hc", "tq") and o == "CLOSED":
+                return ("step %s: the connection of a peer without an IP address (listener on a unix socket) was closed by the "
+                        "limiter: the connection cost can only be charged to a valid peer address; the clients behind such "
+                        "connections (client_addr_header) are all within their own budgets" % st)
+            continue
         if kind == "hx":
             # the client address header does not parse: no subnet can be charged, so the request must not be processed
             if o != "400":
@@ -445,6 +473,8 @@ def c15_admit_classify(line, res):
     m = ""
     if int(f.get("v4", "0")) != 0 or int(f.get("v6", "0")) != 0:
         m = " masks-set" + ("-differ" if f.get("v4") != f.get("v6") else "")
+    if f.get("unix") == "1":
+        m += " unix-socket"
     return "+".join(ks) + "=>" + ("/".join(tags) or "all-admitted") + m
 
 
@@ -894,6 +924,175 @@ def c15_admitglobal_classify(line, res):
     return "overload:%s after:%s" % ("refusals" if "REFUSED" in outs[:cut] else "no-refusal", "/".join(outs[cut + 1:]))
 
 
+# ---- round 6: one long-lived stream connection (limiter + in-flight cap) -------------------------------------------------
+STREAM_CONN = dict(tcp=3, tls=15, gnet=3, quic=15)
+STREAM_QUERY = dict(tcp=2, tls=2, gnet=0, quic=2)          # gnet has no per-query check
+
+
+def c15_stream_gen(rng, tier):
+    out = []
+    k = 0
+
+    def emit(l, rate, burst, maxc, updelay, steps):
+        nonlocal k
+        out.append("s%d l=%s rate=%d burst=%d maxc=%d updelay=%d steps=%s" % (k, l, rate, burst, maxc, updelay, ",".join(steps)))
+        k += 1
+
+    # (A) a storm of limiter refusals on ONE connection, a pause long enough for the bucket to refill, queries again
+    for i in range(budget(tier, 12, 120)):
+        l = rng.choice(["tcp", "tcp", "tcp", "tls", "tls", "quic"])
+        rate = rng.choice([1, 2, 2])
+        maxc = rng.choice([1, 2, 2, 3, 4])
+        burst = STREAM_CONN[l] + rng.choice([5, 7, 9, 12])
+        steps = ["c"]
+        if rng.random() < 0.3:
+            steps.append("d")
+            burst += STREAM_CONN[l]
+        for rnd in range(rng.choice([1, 1, 2])):
+            steps += [rng.choice(["q", "q", "q", "n" if "d" in steps else "q"]) for _ in range(rng.choice([4, 5, 7, 9]))]
+            if rng.random() < 0.3:
+                steps.append("p%d" % rng.choice([2, 3]))
+            steps.append("s%d" % (rng.choice([1400, 2400, 2600, 3400]) // rate + (0 if rate == 1 else 200)))
+            steps += ["q"] * rng.choice([1, 2, 3])
+        emit(l, rate, burst, maxc, 0, steps)
+    # (B) the cap itself: pipelined bursts larger than max_concurrent_queries while the upstream is slow; every slot
+    #     must be free again afterwards
+    for i in range(budget(tier, 8, 80)):
+        l = rng.choice(["tcp", "tcp", "tls", "gnet", "gnet"])
+        rate = rng.choice([2, 5, 20])
+        maxc = rng.choice([1, 2, 3, 4])
+        burst = rng.choice([60, 100, 150])
+        steps = ["c", "p%d" % (maxc + rng.choice([1, 2, 3])), "q"]
+        steps += [rng.choice(["p%d" % (maxc + 1), "q", "s400", "p2", "p%d" % (maxc + 2)]) for _ in range(rng.choice([2, 4, 6]))]
+        steps += ["s%d" % rng.choice([600, 1400]), "p%d" % maxc, "q"]
+        emit(l, rate, burst, maxc, 150, steps)
+    # (C) mixed
+    for i in range(budget(tier, 8, 80)):
+        l = rng.choice(["tcp", "tls", "gnet", "quic"])
+        rate = rng.choice([1, 2, 5])
+        maxc = rng.choice([0, 2, 3, 5])
+        burst = STREAM_CONN[l] * 2 + rng.choice([4, 8, 15])
+        steps = ["c", "d"]
+        total = 0
+        for _ in range(rng.choice([6, 10, 14])):
+            st = rng.choice(["q", "q", "q", "n", "n", "p2", "p3", "s400", "s1400", "s700"])
+            if st[0] == "s":
+                if total > 3000:
+                    continue
+                total += int(st[1:])
+            steps.append(st)
+        emit(l, rate, burst, maxc, rng.choice([0, 0, 150]), steps)
+    return out
+
+
+def _stream_parse(line, res):
+    f = gens.fields(line)
+    r = gens.fields(res)
+    if "t=" not in res or "out" not in r:
+        return None
+    steps = [x for x in f["steps"].split(",") if x]
+    times = [tuple(int(x) for x in t.split(":")) for t in r["t"].split(",")]
+    outs = r["out"].split(",")
+    if len(times) != len(steps) or len(outs) != len(steps):
+        return None
+    if any(ch in "TX" for o in outs for ch in o):
+        return None             # a lost reply is not this property's business, and nothing can be accounted after it
+    return f, steps, times, outs
+
+
+def c15_stream_respec(line, res):
+    if _stream_parse(line, res) is None:
+        return None
+    r = gens.fields(res)
+    return "%s t=%s iout=%s" % (line, r["t"], r["out"])
+
+
+def c15_stream_oracle(line, res):
+    """The property on what the client of ONE connection observed.  The subnet's bucket is kept as an interval [lo, hi] of
+    tokens (an event of step i happened somewhere in [a_i, b_i]), charged as the cost table says with what was ADMITTED
+    (connection 3 / 15, query 2, +3 for the forwarded query when the bucket holds it).  A query is refused rightly only if
+    the bucket cannot hold its cost, or -- tcp / tls / gnet -- if max_concurrent_queries queries of the connection are in
+    flight at that moment, i.e. earlier queries of the SAME pipelined burst (every earlier step has been answered
+    completely; one slot of slack for a reply whose slot is given back a moment later)."""
+    p = _stream_parse(line, res)
+    if p is None:
+        return None
+    f, steps, times, outs = p
+    l, rate, burst = f["l"], int(f["rate"]), int(f["burst"])
+    maxc = int(f["maxc"]) if int(f["maxc"]) > 0 else 100
+    ccost, qcost = STREAM_CONN[l], STREAM_QUERY[l]
+    has_cap = l in ("tcp", "tls", "gnet")
+    refusal = "C" if l == "quic" else "R"
+    B = burst * S
+    b = None                    # [lo, hi, t_last_lo, t_last_hi]
+    dead = [False, False]
+
+    def adv(a, bb):
+        lo = min(B, b[0] + rate * max(0, a - b[3]))
+        hi = min(B, b[1] + rate * max(0, bb - b[2]))
+        return lo, hi
+
+    for st, (a, bb), o in zip(steps, times, outs):
+        if st[0] == "s":
+            continue
+        who = 1 if st[0] in "dn" else 0
+        if b is None:
+            b = [B, B, a, bb]
+        if st[0] in "cd":
+            lo, hi = adv(a, bb)
+            if o == "A":
+                if ccost * S > hi + rate + EPS:
+                    return "step %s: connection admitted although the subnet's bucket holds at most %.6f tokens (cost %d)" % (st, hi / S, ccost)
+                b[:] = [max(lo - ccost * S, -rate), hi - ccost * S, a, bb]
+            else:
+                dead[who] = True
+                if lo - ccost * S >= EPS:
+                    return "step %s: connection closed at accept although the subnet's bucket holds at least %.6f tokens (cost %d)" % (st, lo / S, ccost)
+            continue
+        if dead[who]:
+            return None
+        # Within one step the read loop's checks (cost 2 each) race with the handlers' charges for the forwarded queries
+        # (3 each, only when the bucket holds them): lo counts every earlier charge of the step as done, hi none of them.
+        handled = 0
+        lo, hi = adv(a, bb)
+        for j, ch in enumerate(o):
+            if ch == "A":
+                if qcost and qcost * S > hi + rate + EPS:
+                    return "step %s query %d: admitted although the subnet's bucket holds at most %.6f tokens (cost %d)" % (st, j, hi / S, qcost)
+                lo, hi = lo - qcost * S, hi - qcost * S
+                handled += 1
+            elif ch == refusal:
+                by_cap = has_cap and handled + 2 > maxc
+                lo_now = lo - 3 * S * handled
+                by_limiter = qcost > 0 and lo_now - qcost * S < EPS
+                if not by_cap and not by_limiter:
+                    return ("step %s query %d: refused although the client is within budget: its subnet's bucket holds at least %.6f "
+                            "tokens (query cost %d; burst %d, rate %d) and at most %d of max_concurrent_queries=%d queries of the "
+                            "connection are in flight (every earlier step was answered completely)" % (
+                                st, j, lo_now / S, qcost, burst, rate, handled + 1 if has_cap else 0, maxc))
+            else:
+                return None
+        if handled:
+            # after the step: all charges for forwarded queries are done; one that found fewer than 3 tokens left them
+            lo, hi = max(lo - 3 * S * handled, -rate), max(hi - 3 * S * handled, min(hi, 3 * S))
+        b[:] = [max(lo, -rate), hi, a, bb]
+    return None
+
+
+def c15_stream_classify(line, res):
+    f = gens.fields(line)
+    outs = gens.fields(res).get("out", "")
+    c = f["l"] + (" delay" if int(f["updelay"]) > 0 else "") + " maxc=%s" % f["maxc"]
+    seen_ref = False
+    tag = ""
+    for st, o in zip(f["steps"].split(","), outs.split(",")):
+        if st[0] in "qnp" and ("R" in o or (f["l"] == "quic" and "C" in o)):
+            seen_ref = True
+        if st[0] == "s" and seen_ref:
+            tag = " refusals-then-pause"
+    return c + tag
+
+
 C15_TRUST = ["C15: x/time/rate modelled as an exact integer-arithmetic token bucket (tokens scaled by 1e9); decisions within "
              "1e-6 token of the threshold are not compared (float64)",
              "C15: xsync.MapOf.LoadOrCompute is ONE atomic get-or-create step (the interleaving machine of LimiterConc.v); "
@@ -911,6 +1110,9 @@ PROPS["C15"] = dict(
              classify=c15_race_classify, timeout=600, nontrivial=lambda l, r: r.startswith("r=")),
         dict(name="limglobal", gen=c15_global_gen, oracle=c15_global_oracle, model=False, respec=c15_global_respec,
              respec_kind="limglobalspec", respec_all=True, classify=c15_global_classify, timeout=600,
+             nontrivial=lambda l, r: r.startswith("t=")),
+        dict(name="limstream", gen=c15_stream_gen, oracle=c15_stream_oracle, model=False, respec=c15_stream_respec,
+             respec_kind="limstreamspec", respec_all=True, classify=c15_stream_classify, timeout=900,
              nontrivial=lambda l, r: r.startswith("t=")),
         dict(name="admitglobal", gen=c15_admitglobal_gen, oracle=c15_admitglobal_oracle, model=False,
              classify=c15_admitglobal_classify, timeout=600, nontrivial=lambda l, r: r.startswith("out=") and "SL" in r),
